@@ -84,7 +84,7 @@ ASSUMPTIONS = [
 REQUIRED_MONITORS = ["H1_count", "H2_best_is_min", "H3_tree_of_query", "H4_costs_true", "H5_faults_skipped", "scripted_orders", "threadpool_runs",
                      "post:none", "post:slicing", "post:reconf", "post:slicing_reconf", "post:anneal", "post:stacked",
                      "S1_score_of_tree", "S2_true_min", "R1_get_trials", "R2_sorted_views", "R3_print_trials", "R4_dataframes",
-                     "R5_get_tree_path", "P1_second_search", "P1_pool_switch", "C1_compressed_figures", "cfg:compressed_reconf",
+                     "R5_get_tree_path", "H1_after_aborted_search", "P1_second_search", "P1_pool_switch", "C1_compressed_figures", "cfg:compressed_reconf",
                      "cfg:objective_instance", "cfg:plain_callable", "cfg:max_time_seconds", "cfg:progbar", "cfg:call_api", "cfg:forest"]
 SHARD_TIMEOUT = {"quick": 500, "thorough": 5400}
 
@@ -839,8 +839,107 @@ def widen(case, cs):
             case["max_orders"] = min(case.get("max_orders", 4), 4)   # two searches per forced order
 
 
+# --------------------- a search that is aborted, then the same object searches again --------------------- #
+
+_ABORT = {"calls": 0, "fail_at": None}
+
+
+def _abort_method(inputs, output, size_dict, **kw):
+    _ABORT["calls"] += 1
+    if _ABORT["calls"] == _ABORT["fail_at"]:
+        raise RuntimeError("vf08: injected trial failure")
+    return _hyper._PATH_FNS["greedy"](inputs, output, size_dict)
+
+
+class ImmediatePool:
+    """runs every submitted trial at once in the calling thread: the futures handed back are already done"""
+
+    def __init__(self):
+        self.n_submitted = 0
+        self._max_workers = 2  # what the optimizer sizes its pre-dispatch with
+
+    def submit(self, fn, *args, **kwargs):
+        import concurrent.futures
+
+        self.n_submitted += 1
+        f = concurrent.futures.Future()
+        try:
+            f.set_result(fn(*args, **kwargs))
+        except BaseException as e:  # delivered when the optimizer asks for the result
+            f.set_exception(e)
+        return f
+
+    def shutdown(self, *a, **k):
+        pass
+
+
+def aborted_then_search(rep, cs):
+    """H1 across an abnormal end: a pooled search with on_trial_error='raise' dies on its k-th trial with
+    pre-dispatched trials still outstanding; the next search on the SAME object must run and report at most
+    max_repeats trials of its own (nothing left over from the dead search)."""
+    import concurrent.futures
+
+    if "vf08-abort" not in _hyper._PATH_FNS:
+        _hyper.register_hyper_function("vf08-abort", _abort_method, {"k": {"type": "INT", "min": 0, "max": 9}})
+    rng = rng_for(cs)
+    net = gen.graph_net(rng, rng.randint(6, 10), cap=10**9, n_out=rng.randint(0, 2), p_one=0.0)
+    kind = rng.choice(["immediate", "immediate", "threads"])
+    pool = ImmediatePool() if kind == "immediate" else concurrent.futures.ThreadPoolExecutor(2)
+    R = rng.randint(5, 9)
+    fail_at = rng.randint(2, 4)
+    try:
+        opt = ctg.HyperOptimizer(methods=["vf08-abort"], max_repeats=R, parallel=pool, optlib="random", seed=rng.randrange(10**6),
+                                 on_trial_error="raise", progbar=False)
+        _ABORT.update(calls=0, fail_at=fail_at)
+        try:
+            opt.search(net.inputs, net.output, net.size_dict)
+            rep.count("aborted_search", "first search did not abort")
+            return None
+        except RuntimeError as e:
+            if "vf08" not in str(e):
+                return ("raises", f"aborted-search scenario: first search raised {type(e).__name__}: {e}")
+        if kind == "threads":
+            pool.submit(lambda: None).result()
+            import time
+
+            time.sleep(0.05)
+        _ABORT.update(fail_at=None)
+        n0, c0 = len(opt.scores), _ABORT["calls"]
+        try:
+            tree = opt.search(net.inputs, net.output, net.size_dict)
+        except Exception as e:
+            return ("raises", f"aborted-search scenario ({kind} pool): the search after the aborted one raised {type(e).__name__}: {e} | {traceback.format_exc()[-300:]}")
+        rep.mon("H1_after_aborted_search")
+        reported = len(opt.scores) - n0
+        ran = _ABORT["calls"] - c0
+        if reported > R:
+            return ("H1", f"aborted-search scenario ({kind} pool, first search died at trial {fail_at} of {R}): the next search was asked for {R} trials but reported {reported}")
+        if kind == "immediate" and reported > ran:
+            return ("H1", f"aborted-search scenario: the second search reported {reported} trials but ran only {ran} (results left over from the dead search)")
+        msg = ref.check_tree_struct(net.N, ct.children_of(tree))
+        if msg:
+            return ("H3", f"aborted-search scenario: returned tree: {msg}")
+        if abs(opt.best["score"] - min(opt.scores[n0:] + [opt.best["score"]])) > 1e-9 and opt.best["score"] > min(opt.scores) + 1e-9:
+            return ("H2", "aborted-search scenario: best score is not the minimum of the recorded scores")
+        return None
+    finally:
+        _ABORT.update(fail_at=None)
+        if kind == "threads":
+            pool.shutdown(wait=True)
+
+
 def run_shard(rep, tier, seed, shard, nshards):
     warnings.filterwarnings("ignore")
+    for k in range(budget(tier, 6, 40)):
+        cs = f"{seed}/C08/abort/{shard}/{k}"
+        try:
+            res = aborted_then_search(rep, cs)
+        except Exception as e:
+            rep.inconclusive_case(f"aborted-search harness: {type(e).__name__}: {e} | {traceback.format_exc()[-300:]}")
+            continue
+        rep.case(("abort", cs), True, "aborted_then_search")
+        if res:
+            rep.violation(res[0], {"what": "aborted_then_search", "case_seed": cs}, res[1])
     dl = Deadline(budget(tier, 60, 900))
     for k in range(budget(tier, 500, 6000)):
         if dl.expired():
@@ -899,6 +998,11 @@ def run_shard(rep, tier, seed, shard, nshards):
 
 
 def replay(rep, v):
+    if v["witness"].get("what") == "aborted_then_search":
+        res = aborted_then_search(rep, v["witness"]["case_seed"])
+        if res:
+            rep.violation(res[0], v["witness"], res[1])
+        return
     res = execute(rep, v["witness"])
     if res:
         rep.violation(res[0], v["witness"], res[1])
